@@ -327,6 +327,15 @@ func VerifCore_CommitDecide() {
 			sym.Cover("forged")
 			continue
 		}
+		if idx != verifByzIdx && sym.Bool("decide-replayed-under-another-key") {
+			// the member's genuine DECIDE exists on the wire; the adversary replays
+			// its bytes announced under the key of the base chain
+			if m := e.message(idx, 0, DECIDE_PHASE, input, 4, 0); m != nil {
+				sym.Assert(!e.replayUnderOtherKey(m, VerifX(1)), "a member's message replayed under the key of another chain is rejected")
+				sym.Cover("replayed-under-another-key")
+			}
+			continue
+		}
 		if idx == verifByzIdx && sym.Bool("byzantine-decide-with-made-up-justification") {
 			// the Byzantine member signs, with its own key, a DECIDE for a fork whose
 			// "strong COMMIT quorum" justification is made up (right shape, garbage
